@@ -61,6 +61,14 @@ def runtime_names(mods: Dict[str, types.ModuleType]) -> Dict[str, Dict[str, str]
                         continue
                     expand(ck, cv, 1, cacc)
                 out[mname + '.' + v.__qualname__] = cacc
+                inner = vars(v).get('Inner')
+                if inspect.isclass(inner):
+                    iacc: Dict[str, str] = {}
+                    for ck, cv in list(vars(inner).items()):
+                        if ck.startswith('__'):
+                            continue
+                        expand(ck, cv, 1, iacc)
+                    out[mname + '.' + inner.__qualname__] = iacc
     return out
 
 
@@ -127,6 +135,12 @@ def check_project(proj: Dict[str, Any]) -> Tuple[List[Tuple[str, str]], Dict[str
             got = ctx.resolveName(name)
             if got is not None and pd_token(got) is not None:
                 out.append(('unbound-name-resolves', '%s\nin %s Python binds no name %r, but it resolves to %s' % (desc, m['name'], name, got.fullName())))
+    for mname, musts in (proj.get('must_star') or {}).items():
+        ctx = s.allobjects.get(mname)
+        for name in musts:
+            if name in rt.get(mname, {}) and (ctx is None or ctx.resolveName(name) is None):
+                out.append(('direct-import-rebound-through-alias-chain', '%s\nin %s the name %r is imported from its defining module and bound again, to the same object (%s), by a star import of a module that re-imports it: it does not resolve' % (
+                    desc, mname, name, rt[mname][name])))
     for mname, musts in (proj.get('must') or {}).items():
         ctx = s.allobjects.get(mname)
         for name in musts:
